@@ -2,7 +2,7 @@
    Only statements, [exact] and [Print Assumptions] live here. *)
 From Coq Require Import List Arith Bool NArith.
 From GV Require Import Base.Result Gen.TokenTypes Gen.Defs Gen.Instr Model.Parser Model.BuilderWL Model.Compile
-  Spec.WfCode Proofs.C05.Known Proofs.C05.WfSound Proofs.C05.Bounded Proofs.C05.Refuted Proofs.C05.Operands Proofs.C05.Jumps Proofs.C05.Bodies.
+  Spec.WfCode Proofs.C05.Known Proofs.C05.WfSound Proofs.C05.Bounded Proofs.C05.Refuted Proofs.C05.Operands Proofs.C05.Jumps Proofs.C05.Bodies Proofs.C05.Bounded7.
 Import ListNotations.
 
 (* the executable checker (run natively on every real instruction stream by the
@@ -41,6 +41,14 @@ Theorem C05_compile_agrees_bounded_5 : forall toks init,
   compile_agrees toks init.
 Proof. intros toks init Hl Ha Hi. exact (proj2 (check_b_meaning _ init (reduced_check toks Hl Ha) Hi)). Qed.
 Print Assumptions C05_compile_agrees_bounded_5.
+
+(* ... and for every token sequence of length 7 over the ten-token small
+   alphabet (numbers, +, groups, nested expressions, ?>, |>, &&, ^~) *)
+Theorem C05_small_bounded_7 : forall toks init,
+  length toks = 7 -> (forall x, In x toks -> In x small_alphabet) -> In init inits ->
+  build_wf_or_known toks init /\ compile_agrees toks init.
+Proof. intros toks init Hl Ha Hi. exact (check_b_meaning _ init (small_check_b toks Hl Ha) Hi). Qed.
+Print Assumptions C05_small_bounded_7.
 
 (* the exclusions are necessary: a member of each class whose build is not well-formed *)
 Theorem C05_K1_refuted :
